@@ -87,6 +87,8 @@ def gen(t, tier):
           'skip_geoms': t.pick([0, 0, 0, 1, 2]), 'verbose': bool(t.choice(2)),
           'work': t.pick([0.0, 0.01, 0.3, 0.6, 2.0, 31.0]),
           'interrupts': []}
+    # the cache's meta_buffer (extra pixels requested around a meta tile) must not widen what counts as "intersects the coverage"
+    sc['meta_buffer'] = t.pick([0, 0, 10, 80, 200])
     if sc['caches'] == 2 and t.chance(0.6):
         # --use-cache-lock: another seeding process holds the lock of one of the two caches for a while after each (re)start
         sc['cache_lock'] = {'task': t.choice(2), 'for': t.pick([0.005, 0.5, 5.0, 100.0])}
@@ -109,7 +111,7 @@ def shrink(sc):
             yield c
     if sc['coverage'] == 'edge':
         pass
-    for key, simple in (('coverage', 'none'), ('cache_lock', None), ('caches', 1), ('cov_srs', '3857'), ('meta_size', [1, 1]), ('levels', 'all'), ('skip_geoms', 0),
+    for key, simple in (('coverage', 'none'), ('cache_lock', None), ('caches', 1), ('cov_srs', '3857'), ('meta_buffer', 0), ('meta_size', [1, 1]), ('levels', 'all'), ('skip_geoms', 0),
                         ('verbose', True)):
         if sc.get(key, simple) != simple:
             c = copy.deepcopy(sc)
@@ -474,6 +476,7 @@ def run(sc, tape):
     try:
         with w:
             conf = F.base_conf({'type': 'file', 'directory_layout': 'tc'}, meta_size=sc['meta_size'])
+            conf['caches']['c1']['meta_buffer'] = sc.get('meta_buffer', 0)
             conf['grids']['g'] = dict(sc['grid'])
             conf['caches']['c2'] = copy.deepcopy(conf['caches']['c1'])
             pc = F.make_conf(conf)
